@@ -513,13 +513,46 @@ func compare(inc, fr *obs, cyclic bool, tainted map[string]bool) (string, string
 		}
 	}
 	if inc.Render != fr.Render {
-		return "diagnostics", fmt.Sprintf("%d vs %d diagnostics; %s\n--- incremental report:\n%s\n--- fresh report:\n%s", inc.NDiag, fr.NDiag,
+		return diagKind(inc.Render, fr.Render), fmt.Sprintf("%d vs %d diagnostics; %s\n--- incremental report:\n%s\n--- fresh report:\n%s", inc.NDiag, fr.NDiag,
 			diffLines(inc.Render, fr.Render), clip(inc.Render), clip(fr.Render))
 	}
 	if inc.FDS != fr.FDS {
 		return "fds", fmt.Sprintf("incremental %q vs fresh %q", inc.FDS, fr.FDS)
 	}
 	return "", ""
+}
+
+// diagKind refines the "diagnostics" class by what kind of diagnostic the two reports disagree
+// on: the multiset difference of the diagnostics' header lines.
+func diagKind(a, b string) string {
+	count := map[string]int{}
+	for _, l := range strings.Split(a, "\n") {
+		if strings.HasPrefix(l, "error: ") || strings.HasPrefix(l, "warning: ") || strings.HasPrefix(l, "remark: ") {
+			count[l]++
+		}
+	}
+	for _, l := range strings.Split(b, "\n") {
+		if strings.HasPrefix(l, "error: ") || strings.HasPrefix(l, "warning: ") || strings.HasPrefix(l, "remark: ") {
+			count[l]--
+		}
+	}
+	n, dup := 0, 0
+	for l, c := range count {
+		if c != 0 {
+			n++
+			if strings.Contains(l, "declared multiple times") {
+				dup++
+			}
+		}
+	}
+	switch {
+	case n == 0:
+		return "diagnostics:same-headers"
+	case dup == n:
+		return "diagnostics:duplicate-symbol-set"
+	default:
+		return "diagnostics"
+	}
 }
 
 func clip(s string) string {
@@ -562,10 +595,10 @@ func (s *sink) report(class, detail string, raw []byte, step int, par int) {
 
 type counters struct {
 	cases, steps, compares, cyclicSteps, incCompiles, freshCompiles, skipped atomic.Int64
-	executed, reused                                                        atomic.Int64
-	validYes, validNo, validUnknown                                         atomic.Int64
-	descCompared, diagsSeen                                                 atomic.Int64
-	nondet                                                                  atomic.Int64
+	executed, reused                                                         atomic.Int64
+	validYes, validNo, validUnknown                                          atomic.Int64
+	descCompared, diagsSeen                                                  atomic.Int64
+	nondet                                                                   atomic.Int64
 }
 
 func toSet(xs []string) map[string]bool {
@@ -702,12 +735,12 @@ func main() {
 		"cases": ct.cases.Load(), "steps": ct.steps.Load(), "compares": ct.compares.Load(),
 		"cyclic_steps": ct.cyclicSteps.Load(), "incremental_compiles": ct.incCompiles.Load(),
 		"fresh_compiles": ct.freshCompiles.Load(), "fresh_memo_hits": fm.hits.Load(),
-		"steps_without_compile": ct.skipped.Load(),
+		"steps_without_compile":        ct.skipped.Load(),
 		"queries_executed_incremental": ct.executed.Load(), "queries_reused_incremental": ct.reused.Load(),
 		"valid_yes": ct.validYes.Load(), "valid_no": ct.validNo.Load(), "valid_unknown": ct.validUnknown.Load(),
 		"descriptors_compared": ct.descCompared.Load(), "diagnostics_in_fresh_reports": ct.diagsSeen.Load(),
 		"fresh_nondeterministic": ct.nondet.Load(),
-		"pars": pars, "classes": sk.perClass,
+		"pars":                   pars, "classes": sk.perClass,
 	}
 	b, _ := json.Marshal(st)
 	fmt.Fprintln(os.Stderr, "STATS "+string(b))
@@ -718,7 +751,7 @@ func replay(c *histCase, raw []byte, par int, sk *sink, ct *counters,
 	fresh func(map[string]string, []string, int, bool) obs, withFDS bool, timeout time.Duration, noEvict, dropChanged bool) {
 	eng := newEngine(par)
 	eng.stat = keyStats
-	cur := map[string]fileV{}   // the driver's view of the abstract workspace
+	cur := map[string]fileV{}    // the driver's view of the abstract workspace
 	texts := map[string]string{} // path -> text of the files that exist
 	for id, f := range c.Origin.Ws {
 		cur[id] = normalize(f)
